@@ -164,6 +164,17 @@ def rule_frame(c, prog):
             problems.append(("children-enqueued", "no loop enqueues (builder.referent, child) for each of the builder's children"))
     except (sym.Unsupported, core.AnalysisError) as e:
         problems.append(("source", f"WeakDom::insert is outside the symbolic model: {e}"))
+    # duplicate keys of the builder's property list: the LAST entry wins (what `collect()` into a map does, and what the
+    # binary reader relies on when it pushes a migrated value first and the explicit one later)
+    firstwins = []
+    for f2 in prog.lib_fns():
+        if f2.body is None or f2.crate != "rbx_dom_weak" or not (f2.path == ins.path or (f2.d.get("root") or "") == ins.path or f2.path.startswith(ins.path + "::")):
+            continue
+        for x in core.walk_fn(f2):
+            if x.get("k") == "MethodCall" and x["m"] in ("or_insert", "or_insert_with", "or_default", "try_insert") and "variant::Variant" in ((x.get("ty") or "") + (core.strip(x["recv"]).get("ty") or "")):
+                firstwins.append(x)
+    if firstwins:
+        problems.append(("properties", "the property map is filled with `entry(..).or_insert(..)`: of two entries with the same key in the builder's list the FIRST is kept, where collecting the list keeps the last (the binary reader pushes a migrated legacy value and, later, the explicit value under the same name)"))
     seen_p = set()
     for kind in ("source", "referent", "name", "class", "properties", "parent", "children", "children-enqueued"):
         msgs = [m for k2, m in problems if k2 == kind]
